@@ -6,6 +6,7 @@ From Coq Require Import ZArith List Bool.
 Import ListNotations.
 From CR Require Import Base.G2Fold Model.IdPool Proofs.IdPool.
 From CR Require Import Model.IdPoolSrc Gen.Src_idpool Proofs.SrcIdPool.
+From CR Require Import Model.IdRemoveSrc Gen.Src_idremove Proofs.SrcIdRemove.
 Open Scope Z_scope.
 
 (* what the invariant says: no two contained objects share an id, the id set is exactly the set of ids of the
@@ -117,6 +118,30 @@ Example C09_source_nonvacuous :
   snd (run_generate src_generate s0) = Some 8.
 Proof. vm_compute. repeat split. Qed.
 
+(* ---- the removal steps of the model are the source ---------------------------------------------------------------
+   Gen/Src_idremove.v holds Scenario.remove_obstacle, remove_lanelet, remove_traffic_sign, remove_traffic_light,
+   remove_intersection, erase_lanelet_network and replace_lanelet_network as parsed on every run into the statement
+   language of Model/IdRemoveSrc.v (harness/props/c09_rm_src.py, fail-closed).  Executed by that language's interpreter
+   ([src_exec]: every removal operation and Replace through the parsed methods, the remaining operations as the model has
+   them), they are [exec] on every state, so a step through the parsed methods is the model's step and the invariant and
+   the reachability theorem hold of histories executed by them. *)
+Theorem C09_removals_are_source : forall o s, src_exec src_removal o s = exec o s.
+Proof. exact src_exec_is_model. Qed.
+Theorem C09_source_step_inv : forall s o, Inv s -> ok s o = true -> Inv (fst (src_step src_removal s o)).
+Proof. exact src_step_inv. Qed.
+Theorem C09_source_reachable_inv : forall ops,
+  all_ok step ok ops init = true -> Inv (run (src_step src_removal) ops init).
+Proof. exact src_reachable_inv. Qed.
+(* non-vacuity: the parsed methods really run - an intersection leaves with its incoming elements, an absent sign raises
+   KeyError after the network was asked, a list of obstacles of two roles is removed *)
+Example C09_source_removal_nonvacuous :
+  let s0 := mkSt [1; 2; 3; 4; 5; 6] (Some 6) (mkN [] [] [] [mkX 1 [2; 3]]) [4] [5] [] [] [] in
+  idset (fst (src_exec src_removal (RemoveInter (mkX 1 [2; 3])) s0)) = [4; 5; 6] /\
+  snd (src_exec src_removal (RemoveSign 9) s0) = Some KeyError /\
+  (let s1 := fst (src_exec src_removal (RemoveObstacles [5; 4]) s0) in
+   idset s1 = [1; 2; 3; 6] /\ statics s1 = [] /\ dynamics s1 = []).
+Proof. vm_compute. repeat split. Qed.
+
 Print Assumptions C09_inv_meaning.
 Print Assumptions C09_init.
 Print Assumptions C09_step_inv.
@@ -135,3 +160,7 @@ Print Assumptions C09_mark_one_is_source.
 Print Assumptions C09_mark_all_is_source.
 Print Assumptions C09_generate_is_source.
 Print Assumptions C09_source_nonvacuous.
+Print Assumptions C09_removals_are_source.
+Print Assumptions C09_source_step_inv.
+Print Assumptions C09_source_reachable_inv.
+Print Assumptions C09_source_removal_nonvacuous.
